@@ -13,6 +13,7 @@ using namespace rxv;
 using randomx_verif::Access;
 
 RXV_SUBCOMMAND(c18) {
+	runWatchdogKey() = "C18:watchdog:program-execution-did-not-return";
 	// ---- clause 1: all divisors of this shard's slice
 	const uint64_t total = 1ULL << 32;
 	const uint64_t lo = total * args.shard / args.nshards, hi = total * (args.shard + 1) / args.nshards;
